@@ -15,8 +15,11 @@
    [wf_src]: sibling names distinct, only directories have children, valid types, symlinks 0777,
    xattrs sorted by key.  [wf_fs]: ids below [next], every entry has a parent directory,
    directories have one name, the root is a directory.
-   The theorems named _partial are proved for sources without multiply-linked files
-   ([no_link_groups]); see props/C15.json for the gap. *)
+   [links_consistent]: the names of one multiply-linked regular file carry one dentry.
+   Link groups (copier.inodes, os.Link) are covered for ONE literal source; with wildcard
+   sources the theorems need [no_link_groups] - that is where the known finding
+   hardlink-first-copy-overwritten lives.  Hence the hypothesis
+   [no_link_groups sroot \/ o_wild o = false] and the suffix _partial; see props/C15.json. *)
 From Coq Require Import List NArith Bool.
 From FS Require Import Sx Model.Path Model.SymMode Model.Copier Model.CopySpec
   Proofs.CopierP Proofs.CopyOpsP Proofs.CopyTopP Proofs.CopyThmP Proofs.CopyConflictP Proofs.CopyFaithP
@@ -25,12 +28,12 @@ Import ListNotations.
 Open Scope N_scope.
 Open Scope bool_scope.
 
-(* Full statement (copy_overlay): for every well-formed source tree — link groups and wildcard
-   sources included — and every destination:  the result of a successful Copy is
+(* Full statement (copy_overlay): for every well-formed source tree — link groups AND wildcard
+   sources together included — and every destination:  the result of a successful Copy is
    [overlay_all], the notifications are [xr_notifs], and a predicted error is the reported one.
-   Proved part: sources without link groups (all options, wildcards included). *)
+   Proved part: everything except wildcard sources combined with link groups. *)
 Theorem copy_overlay_partial :
-  forall o sroot, wf_src sroot -> no_link_groups sroot ->
+  forall o sroot, wf_src sroot -> links_consistent sroot -> no_link_groups sroot \/ o_wild o = false ->
   forall fs src dst r, wf_fs fs -> overlay_all o sroot (view_of_fs fs) src dst = inl r ->
     exists st', copy_top o sel_all sroot fs src dst = (st', None) /\
                 view_matches (view_of_fs (c_fs st')) (xr_view r) /\
@@ -38,7 +41,7 @@ Theorem copy_overlay_partial :
 Proof. exact copy_overlay_partial_proof. Qed.
 
 Theorem copy_error_partial :
-  forall o sroot, wf_src sroot -> no_link_groups sroot ->
+  forall o sroot, wf_src sroot -> links_consistent sroot -> no_link_groups sroot \/ o_wild o = false ->
   forall fs src dst xe, wf_fs fs -> overlay_all o sroot (view_of_fs fs) src dst = inr xe ->
     exists st' e, copy_top o sel_all sroot fs src dst = (st', Some e) /\ err_cls e = xerr_cls xe.
 Proof. exact copy_error_partial_proof. Qed.
@@ -47,7 +50,7 @@ Proof. exact copy_error_partial_proof. Qed.
    source non-directory over a directory) without always-replace: Copy fails with that class and
    the obstacle is still at its path with the same dentry and the same inode. *)
 Theorem conflict_is_error_and_keeps_obstacle_partial :
-  forall o sroot, wf_src sroot -> no_link_groups sroot ->
+  forall o sroot, wf_src sroot -> links_consistent sroot -> no_link_groups sroot \/ o_wild o = false ->
   forall fs src dst cls p bef, wf_fs fs ->
     overlay_all o sroot (view_of_fs fs) src dst = inr (XConflict cls p bef) ->
     o_replace o = false /\
@@ -68,7 +71,7 @@ Proof. exact always_replace_never_conflicts_proof. Qed.
 
 (* A successful Copy leaves a well-formed file system, so it can be copied onto again. *)
 Theorem copy_preserves_wf :
-  forall o sroot, wf_src sroot -> no_link_groups sroot ->
+  forall o sroot, wf_src sroot -> links_consistent sroot -> no_link_groups sroot \/ o_wild o = false ->
   forall fs src dst st', wf_fs fs -> copy_top o sel_all sroot fs src dst = (st', None) -> wf_fs (c_fs st').
 Proof. exact copy_preserves_wf_proof. Qed.
 
@@ -77,7 +80,7 @@ Proof. exact copy_preserves_wf_proof. Qed.
    type, a source non-directory as a faithful copy whatever was there before (one literal source;
    what else is there is copy_overlay_partial). *)
 Theorem always_replace_source_wins_partial :
-  forall o sroot, wf_src sroot -> no_link_groups sroot ->
+  forall o sroot, wf_src sroot -> links_consistent sroot ->
   forall fs src dst ms sn,
     o_replace o = true -> o_wild o = false -> wf_fs fs ->
     parse_of o = Some ms -> s_resolve sroot (rooted src) = inl sn ->
@@ -98,10 +101,10 @@ Proof. exact always_replace_source_wins_partial_proof. Qed.
    the specification predicts success and the same landing path ([xr_landings]) - without it
    the statement contradicts the landing rule (a source directory copied to a not yet existing
    dst lands AT dst the first time and INSIDE dst the second time, like cp -a); landing_clear
-   as in C13.  One literal source, no link groups; inode numbers are not compared
+   as in C13.  One literal source (link groups included); inode numbers are not compared
    (non-directories are re-created). *)
 Theorem copy_idempotent_partial :
-  forall o sroot, wf_src sroot -> no_link_groups sroot ->
+  forall o sroot, wf_src sroot -> links_consistent sroot ->
   forall fs src dst r1 st1 r2 ms sn L,
     o_wild o = false -> wf_fs fs ->
     overlay_all o sroot (view_of_fs fs) src dst = inl r1 ->
@@ -119,7 +122,22 @@ Theorem copy_idempotent_partial :
                 end.
 Proof. exact copy_idempotent_partial_proof. Qed.
 
+(* The hypothesis [no_link_groups sroot \/ o_wild o = false] cannot be dropped: the model (and
+   the real code: corpus/C13/hardlink_stale.case, known finding hardlink-first-copy-overwritten)
+   violates the overlay for wildcard sources with a link group - copier.inodes keeps the first
+   destination PATH of a source inode, a later match overwrites that path, and the next member
+   of the group is linked to the wrong file. *)
+Theorem copy_overlay_refuted :
+  exists o sroot fs src dst,
+    wf_src sroot /\ links_consistent sroot /\ wf_fs fs /\
+    match overlay_all o sroot (view_of_fs fs) src dst with
+    | inl r => ~ view_matches (view_of_fs (c_fs (fst (copy_top o sel_all sroot fs src dst)))) (xr_view r)
+    | inr _ => False
+    end.
+Proof. exact copy_overlay_refuted_proof. Qed.
+
 Print Assumptions copy_overlay_partial.
+Print Assumptions copy_overlay_refuted.
 Print Assumptions copy_error_partial.
 Print Assumptions conflict_is_error_and_keeps_obstacle_partial.
 Print Assumptions always_replace_never_conflicts.
@@ -129,8 +147,12 @@ Print Assumptions copy_idempotent_partial.
 
 (* ---- non-vacuity ---- *)
 Example ex_hypotheses :
-  wf_src ex_src /\ no_link_groups ex_src /\ wf_fs fs_empty /\ wf_fs ex_dst.
-Proof. exact (conj (proj1 ex_src_wf) (conj (proj2 ex_src_wf) (conj fs_empty_wf ex_dst_wf))). Qed.
+  wf_src ex_src /\ no_link_groups ex_src /\ links_consistent ex_src /\ wf_fs fs_empty /\ wf_fs ex_dst /\
+  wf_src ex_src_links /\ links_consistent ex_src_links.
+Proof.
+  exact (conj (proj1 ex_src_wf) (conj (proj2 ex_src_wf) (conj (links_consistent_nolinks _ (proj2 ex_src_wf))
+        (conj fs_empty_wf (conj ex_dst_wf ex_src_links_wf))))).
+Qed.
 
 Definition ex_paths : list (list (list N)) :=
   [ []; [n_d]; [n_d; n_f]; [n_d; n_f; n_x]; [n_d; n_g]; [n_d; n_l]; [n_d; n_p]; [n_p]; [n_x]; [n_d; n_d] ].
@@ -215,5 +237,22 @@ Example ex_idempotent :
     | _, _, _ => false
     end
   | _ => false
+  end = true.
+Proof. vm_compute. reflexivity. Qed.
+
+(* link groups: d/f, d/g and h are one inode in the source; copying the root over the populated
+   destination with always-replace: the three copies share ONE inode (d/g replaces the old
+   unrelated file), d/x has its own, the overlay specification (keys KSrc) is matched *)
+Example ex_link_group :
+  match overlay_all o_replace_on ex_src_links (view_of_fs ex_dst) [] s_slash,
+        copy_top o_replace_on sel_all ex_src_links ex_dst [] s_slash with
+  | inl r, (st', None) =>
+      view_matches_b (view_of_fs (c_fs st')) (xr_view r) ([n_h] :: [n_d; n_x] :: ex_paths) &&
+      (match names (c_fs st') [n_d; n_f], names (c_fs st') [n_d; n_g], names (c_fs st') [n_h], names (c_fs st') [n_d; n_x] with
+       | Some a, Some b, Some c, Some d => N.eqb a b && N.eqb b c && negb (N.eqb a d)
+       | _, _, _, _ => false end) &&
+      (match lstat (c_fs st') [n_d; n_g] with Some d => bytes_eqb (d_content d) [104; 105] | None => false end) &&
+      negb (c_stale st')
+  | _, _ => false
   end = true.
 Proof. vm_compute. reflexivity. Qed.
